@@ -45,7 +45,11 @@ def lot_element(draw):
 def div_element(draw):
     lst = draw(L.rendered_list("lot", 99, max_items=3))
     chain = draw(aq.chain_strategy(1, 2))
-    return {"kind": "div", "lst": lst, "acres": {}, "chain": chain, "of": draw(st.sampled_from(OF)),
+    acres = {}
+    for i, it in enumerate(lst["items"]):
+        if it[0] == "single" and draw(st.integers(0, 3)) == 0:
+            acres[str(i)] = draw(st.sampled_from(["(19.85)", " (20)", "[20.01]", " [0.5]"]))
+    return {"kind": "div", "lst": lst, "acres": acres, "chain": chain, "of": draw(st.sampled_from(OF)),
             "style": draw(st.sampled_from(["slash", "glyph"]))}
 
 
@@ -68,7 +72,7 @@ def case():
         return {"els": els, "seps": seps, "config": draw(st.sampled_from(CONFIGS)),
                 # how suppress_lot_divs reaches the parse: through the config (as written in "config"), or through / against a keyword
                 "suppress_via": draw(st.sampled_from(["config", "config", "kw", "kw_false_over_config", "kw_true_over_config"])),
-                "reparse": draw(st.sampled_from(["none", "none", "same_same_toggled"]))}
+                "reparse": draw(st.sampled_from(["none", "none", "same_same_toggled", "dry_run_other_settings"]))}
     return build()
 
 
@@ -163,6 +167,8 @@ def classes(c):
         out.add("bare_linebreak")
     if any(e.get("acres") for e in c["els"]):
         out.add("acreage")
+    if any(e.get("acres") and e["kind"] == "div" for e in c["els"]):
+        out.add("div_with_acreage")
     if "suppress_lot_divs" in c["config"]:
         out.add("suppress")
     out.add(f"via={c.get('suppress_via')}")
@@ -281,6 +287,17 @@ def oracle(c):
             fails.append(Failure("dup_flag_after_reparse", f"{text!r}: after re-parsing with suppress_lot_divs={not suppress}: dup warnings lot={got_dl} qq={got_dq} but lots={t.lots} qqs={t.qqs}",
                                  w_flags=list(t.w_flags), **ctx))
         t.parse(suppress_lot_divs=suppress)
+    if c.get("reparse") == "dry_run_other_settings" and not fails:
+        # a trial parse under other settings is not committed: every attribute, also the derived ones, still shows the committed parse
+        before = (list(t.lots), list(t.qqs), list(t.lots_qqs), list(t.ilots), dict(t.lot_acres), list(t.aliquots_whole), sorted(map(str, t.w_flags)))
+        t.parse(commit=False, suppress_lot_divs=not suppress, qq_depth=1, clean_qq=True)
+        after = (list(t.lots), list(t.qqs), list(t.lots_qqs), list(t.ilots), dict(t.lot_acres), list(t.aliquots_whole), sorted(map(str, t.w_flags)))
+        if after != before:
+            k = next(i for i, (a, b) in enumerate(zip(before, after)) if a != b)
+            name = ("lots", "qqs", "lots_qqs", "ilots", "lot_acres", "aliquots_whole", "w_flags")[k]
+            fails.append(Failure(f"dry_run_changed:{name}", f"{text!r} [{cfg}]: after parse(commit=False, other settings) {name} is {after[k]}, was {before[k]}", **ctx))
+        elif list(t.lots_qqs) != list(t.lots) + list(t.qqs):
+            fails.append(Failure("lots_qqs_after_dry_run", f"{text!r}: lots_qqs {t.lots_qqs} != lots + qqs after a dry run", **ctx))
     n_dl = sum(1 for f in t.w_flags if f.startswith("dup_lot<"))
     n_dq = sum(1 for f in t.w_flags if f.startswith("dup_qq<"))
     if n_dl > 1 or n_dq > 1:
@@ -295,5 +312,5 @@ def render(c):
 SUBS = [
     Sub("compose", oracle, strategy=lambda tier: case(), validate=validate, nontrivial=nontrivial, classes=classes, render=render,
         n={"quick": 800, "thorough": 15000}, shards={"quick": 12, "thorough": 16},
-        essential=("lots->aliquot", "aliquot->lots", "div->aliquot", "aliquot->div", "lots->div", "aliquot->all", "acreage", "suppress", "bare_linebreak", "via=kw_false_over_config", "via=kw_true_over_config", "reparse=same_same_toggled")),
+        essential=("lots->aliquot", "aliquot->lots", "div->aliquot", "aliquot->div", "lots->div", "aliquot->all", "acreage", "suppress", "bare_linebreak", "via=kw_false_over_config", "via=kw_true_over_config", "reparse=same_same_toggled", "reparse=dry_run_other_settings", "div_with_acreage")),
 ]
